@@ -67,3 +67,12 @@ package bfd
 //@   maxpaths 60000
 //@   loop 1 invariant s.localState == stateDown || s.localState == stateInit || s.localState == stateUp
 //@   loop 1 invariant s.Sender != nil && s.DetectMult > 0 && s.desiredMinTXInterval > 0 && s.DesiredMinTxInterval > 0 && s.RequiredMinRxInterval > 0
+
+//@ # ---- C15: a session reports "up" exactly in state Up (what connectedLink.IsUp / detachedLink.IsUp hand to the
+//@ # router's validateEgressUp)
+//@ func (*Session).IsUp
+//@   props C15 C16
+//@   nosafety
+//@   requires s != nil
+//@   modifies nothing
+//@   ensures result == (s.localState == stateUp)
